@@ -79,6 +79,7 @@ type groupScen struct {
 	strategy    string
 	faultFree   bool
 	countsEver  map[string][]int // topic -> partition counts it has had
+	countsAt    map[string][]int64 // ... and since when (us)
 	lastPlanOwner map[string]string
 	abandoned   bool // a crashed member's goroutines are left behind: the run ends by exiting the process
 }
@@ -303,14 +304,17 @@ func scenGroup(r *run) {
 		gs.initial = sarama.OffsetOldest
 	}
 	gs.countsEver = map[string][]int{}
+	gs.countsAt = map[string][]int64{}
 	for _, t := range cl.sortedTopics() {
 		gs.countsEver[t.name] = []int{len(t.parts)}
+		gs.countsAt[t.name] = []int64{0}
 	}
 	cl.onView = func() {
 		for _, t := range cl.sortedTopics() {
 			cs := gs.countsEver[t.name]
 			if len(cs) == 0 || cs[len(cs)-1] != len(t.parts) {
 				gs.countsEver[t.name] = append(cs, len(t.parts))
+				gs.countsAt[t.name] = append(gs.countsAt[t.name], k.nowUs())
 			}
 		}
 	}
